@@ -92,6 +92,10 @@ def decorate(m, n, rng):
     m.add_variable('_hidden', np.arange(n) * -1.0)
     m.add_variable('_k', np.arange(n), dtype=int)
     m.add_variable('F2', 0.25)
+    # internal names of unusual shapes: the underscore alone, two leading underscores, underscore + digit, underscore + non-ASCII
+    for j, nm in enumerate(('_', '__cache', '_9', '_é')):
+        if nm not in m.names and rng.random() < 0.6:
+            m.add_variable(nm, np.arange(n) * 0.5 - 7 * (j + 1))
     # an internal variable whose name shadows the private storage of a public one ('_Y' next to 'Y')
     first = m.names[0]
     if not first.startswith('_') and '_' + first not in m.names:
